@@ -17,11 +17,11 @@ namespace RdfModel.EmitSite
 
 inductive FieldClass where
   | value | iface | absent | nilLit | copy | untouched | unknown
-  deriving DecidableEq, Repr, BEq
+  deriving DecidableEq, Repr
 
 inductive SiteKind where
   | triple | quad | assign
-  deriving DecidableEq, Repr, BEq
+  deriving DecidableEq, Repr
 
 structure Site where
   pkg : String
